@@ -57,6 +57,35 @@ def main():
         if nok:
             okp = [p for p in paths if p.ok][0]
             ck.expect_sat('C20.mgr.cover', okp, True)
+    # catching up: several creations in the SAME block (the manager is more than one duration late): every one of them advances by exactly one
+    # step and notifies every hook once - a history, because state written by the first call may influence the second
+    def body_catchup(it):
+        c = it.ctx
+        eid = c.sym('id', 64); start = c.sym('start', 64); dur = c.sym('duration', 64); gen = c.sym('genesis', 64); now = c.sym('now', 64)
+        w = it.world; w.contract = 'epoch_manager'
+        w.item('epoch', it.mk(EM + 'EpochV2', id=eid, start_time=TS(start)))
+        w.item('config', it.mk(EM + 'Config', epoch_config=it.mk(EM + 'EpochConfig', duration=U64(dur), genesis_epoch=U64(gen))))
+        w.hooks['hooks'] = [Str('hook_a'), Str('hook_b')]
+        env = mk_env(it, now, height=c.sym('height', 64))
+        outs = []
+        for k in range(3):
+            r = enter(it, 'epoch_manager', 'execute', env, mk_info('anyone'), it.mkv(EM + 'ExecuteMsg', 'CreateEpoch'))
+            outs.append(r)
+            if r.variant != 'Ok': break
+        it.extra = dict(outs=outs)
+        return outs[-1]
+    eid, start, dur, now = [z3.Int(n) for n in ('id', 'start', 'duration', 'now')]
+    n3 = 0
+    for p in ck.explore(prog, body_catchup, 'mgr.catch_up'):
+        outs = p.extra.get('outs', [])
+        oks = [r for r in outs if r.variant == 'Ok']
+        for k, r in enumerate(oks):
+            ck.oblige('C20.mgr.catch_up.hooks.%d' % k, p, len(wasm_execs(r.fields[0])) != 2, 'creation number %d within one block still notifies every hook exactly once' % (k + 1))
+        if len(oks) == 3:
+            n3 += 1
+            ep = p.world.storage['epoch']
+            ck.oblige('C20.mgr.catch_up.three_steps', p, z3.Or(ep.fields[0] != eid + 3, ep.fields[1].fields[0].fields[0] != start + 3 * dur, now - start < 3 * dur), 'three creations in one block advance id and start by exactly three steps, and only when three durations have elapsed')
+    ck.require(n3 >= 1, 'catch-up history: no path with three successful creations')
     distributor(ck)
     try:
         import c20_collector
